@@ -65,6 +65,26 @@ CLAIMS = {
          "Restart-protocol clause only: produced-count added before the result test, complement, additive cursor, grow, re-entry with the advanced cursor; copy cursor resynchronised and position list reset in CorrectWith. The escape tables, surrogate handling and the UTF-8 automaton are native and NOT decided.",
          "Trusts the natives' reporting convention (negative result = ~consumed, dn = produced).",
          "DESIGN.md §4 C20"),
+ "C03": ("abstract interpretation of the encoder IR compiler (branches resolved, stack balanced, depth tags); opcode totality in both executors; kind / map-key / stringize parity; post-pass twins; Marshaler dispatch order",
+         "Static necessary-condition check of the encoder's compiled programs and of the tables that must agree with encoding/json's contract (supported kinds, `,string` kinds, Marshaler priority) and between the two entry paths. Emitted token text, number text and escape text are NOT decided.",
+         "resolver.typeFields (a port of encoding/json) is not compared with GOROOT. Float map keys accepted only on the unsorted path are a recorded known finding (F-17).",
+         "DESIGN.md §3.2, §3.6, §4 C03"),
+ "C04": ("must-precede guards on emitted x86 templates (CFG reachability) and on VM arms / Go primitives (structural dominance); bit-vs-mask rule; restart protocol; output budget",
+         "Error-path and overflow clauses only: NaN/Inf, invalid json.Number, unsupported kinds and the nesting limit reach an error in both executors; user Marshaler output is validated unless explicitly disabled; option bits are tested as masks; the buffer-full restart protocol and the output-space budget hold. Well-formedness of emitted text in general and round-trip equality are NOT decided.",
+         "Trusts the native formatters to emit well-formed text within their documented maximum lengths.",
+         "DESIGN.md §3.2 A2, §4 C04"),
+ "C11": ("sibling agreement between jitdec and optdec: option-bit consumer parity, kind sets, front-end guard sets, selection wiring, base agreement, restore-on-all-exits (go/cfg), unmarshaler-before-fast-path ordering",
+         "Static necessary-condition check that the alternative decoder consumes the same option bits, supports the same kinds, performs the same pre-checks, is switched in as a whole, bases its parser state at data[pos:], restores temporarily changed options on every exit and checks custom unmarshalers before kind fast paths. Equality of decoded values is NOT decided.",
+         "optdec ignoring UseUnicodeErrors is a recorded known finding (F-7). native parse_with_padding is not analysed.",
+         "DESIGN.md §4 C11"),
+ "C12": ("sibling agreement between the x86 emitter and the VM: opcode totality, branch-op agreement, option-bit parity, nesting-bound agreement, operand widths, guards, shared post-pass, VM-only primitives (restart protocol), pretouch work-list flags",
+         "Static necessary-condition check that both encoder back ends cover the same opcodes with the same control-flow meaning, test the same option bits, use the same operand widths and guards, share the nesting limit, and that VM-only code paths (alg.Quote, pretouchRec) follow the same protocols. Byte-identical output is NOT decided.",
+         "Shared Go primitives are the same objects in both executors (checked by W5e's consumer table).",
+         "DESIGN.md §4 C12"),
+ "C19": ("width rows over the jitdec handlers / encoder handlers / VM arms (token, range-helper, store-width and sibling agreement); output budget of native integer writers",
+         "Width and selection clauses only: each narrow decode applies the range check of its own width (value and map-key opcodes agree), stores and operand loads use that width in JIT and VM, native integer/float writers get room for their longest output. Correct rounding, shortest digits and overflow detection happen inside natives that exist only as byte arrays and are NOT decided.",
+         "native vsigned/vunsigned/vnumber/f64toa/f32toa are not analysed; a change inside the *_text_amd64.go byte arrays is invisible to this technique.",
+         "DESIGN.md §4 C19"),
 }
 
 NOT_YET = {}
